@@ -138,3 +138,14 @@ impl<'a, M: Flat + ?Sized, B: AsyncWriteBuffer + 'a> DerefMut for SendGuard<'a, 
         unsafe { M::from_mut_bytes_unchecked(self.buffer) }
     }
 }
+
+/// Hooks for external verification harnesses. Compiled only with the `verif` feature.
+#[cfg(feature = "verif")]
+impl<M: Flat + ?Sized, B: AsyncWriteBuffer> Sender<M, B> {
+    pub fn verif_buffer(&self) -> &B {
+        &self.buffer
+    }
+    pub fn verif_buffer_mut(&mut self) -> &mut B {
+        &mut self.buffer
+    }
+}
